@@ -1,31 +1,25 @@
 /-
-C34 counterexample (NOT a proof obligation): the full line-level statement is false for a
-pre-existing file that does not end with a newline -- JSONLinesWriter opens in append mode and writes
-`dumps ++ "\n"` without first terminating the last old line, so the first new record is glued to it.
+C34, historical counterexample (NOT a proof obligation; finding repaired in /repo by the commit
+"fix: JSONLinesWriter starts a new line when appending to a file without a trailing newline").
+
+Before the repair JSONLinesWriter wrote `dumps ++ "\n"` directly after the old content.  Without the
+`lineFix` term of `C34_lines_full` the line-level statement is false for a pre-existing file that
+does not end with a newline: the first new record is glued to the last old line.
 -/
 import BlueskyVerif.Props.C34
 
 namespace BlueskyVerif.C34
 open BlueskyVerif.JsonWriter
 
-/-- pre-existing content `{"a":1}` (no trailing newline), one new record `{"b":2}`: the file has ONE
-    line `{"a":1}{"b":2}` instead of two. -/
-theorem C34_lines_full_false : ¬ C34_lines_full := by
+/-- pre-existing content `x` (no trailing newline), one new record `y`: the unrepaired text `xy\n`
+    has ONE line instead of two. -/
+theorem C34_lines_unrepaired_false :
+    ¬ (∀ (pre : String) (texts : List String), (∀ t ∈ texts, '\n' ∉ t.toList) →
+        linesOf (pre ++ concatAll (texts.map (· ++ "\n"))).toList = linesOf pre.toList ++ texts.map String.toList) := by
   intro h
   have := h "x" ["y"] (by simp)
   simp [concatAll] at this
   revert this
   decide
-
-/-- the same in the model of the writer itself: old content "x", one call with text "y" -/
-example : ∃ c, (runCalls (linesCall "d") ⟨some "f.jsonl"⟩ [("f.jsonl", "x")] [⟨"event", "y", none⟩]).2.1.get "f.jsonl" = some c
-    ∧ c = "x" ++ concatAll ["y" ++ "\n"] := by
-  have := (C34_lines_append "d" ⟨some "f.jsonl"⟩ [("f.jsonl", "x")] ⟨"event", "y", none⟩ [] "" (by simp)).1
-  refine ⟨_, ?_, rfl⟩
-  have hf : linesFile "d" ⟨some "f.jsonl"⟩ ⟨"event", "y", none⟩ "" = "f.jsonl" := by
-    simp [linesFile, truthy]
-  rw [hf] at this
-  rw [this]
-  simp [FS.get, List.lookup, concatAll]
 
 end BlueskyVerif.C34
